@@ -20,7 +20,7 @@ Tolerances (eps = 2.2e-16, L = generator-known Lipschitz constant of f in y, s =
   accept/reject: decisions inside the rounding band of the estimator (64 eps |h| sum_j|E_j||K_j| (1+|h|L)^s + 1e-9 scale) are not judged.
   accuracy: local error per accepted step <= scaled tolerance (the estimator bounds the lower-order formula, the higher one is
   propagated), amplified by at most exp(L T) <= e^2 on the generated families (L T <= 2), so 20 N (atol + rtol Ymax) with
-  N = attempted steps covers it; rounding floor 1e3 eps Ymax N.
+  N = attempted steps covers it; rounding floor (1e3 + 4 tmax L) eps Ymax N (arithmetic + rounding of the step end times).
 """
 from __future__ import annotations
 
@@ -47,9 +47,10 @@ ASSUMPTIONS = [
     "textbook Euler/RK4/3-8 formulas and SciPy's RK23/RK45 class attributes (A, B, C, E, rk_step) are the references",
     "accept/reject is judged with xitorch's documented scalar tolerances: 2-norm of SciPy's estimator h K^T E against "
     "atol + rtol*max(|y0|_2,|y1|_2); decisions inside the estimator's rounding band are not judged",
-    "accuracy bound 20*N*(atol+rtol*max|y|_2)+1e3*eps*N*max|y| on families with L*T <= 2 (amplification exp(LT) <= 7.4) and a first "
-    "interval with |h0|*L <= 0.5 (rk23) / 1 (rk45): the first step is the whole first interval and the embedded estimate is not a bound "
-    "outside the asymptotic regime (Bogacki-Shampine estimate of y'=-y/h vanishes identically at h*lambda=-1)",
+    "accuracy bound 20*N*(atol+rtol*max|y|_2)+(1e3+4*tmax*L)*eps*N*max|y| on families with L*T <= 2 (amplification exp(LT) <= 7.4), judged only "
+    "when the first interval has |h0|*L <= 0.5 (rk23) / 1 (rk45) [FIRST_STEP_GUARD]: the first step is the whole first interval and an embedded "
+    "estimate is not a bound outside the asymptotic regime (the Bogacki-Shampine estimate of y'=lambda*y vanishes identically at h*lambda=-1; "
+    "y'=-y on ts=[0,1] with rk23 returns y0/3). Recorded as an unrepaired finding, site first_step_whole_interval",
     "rk23 tolerances limited so that the expected step count stays below ~1500 (case-count budgets, no time limits)",
 ]
 LEVEL_TEXT = ("Exploration with model-based oracles: each fixed-step interval is compared with the textbook formula (one-step identity, call log), "
@@ -59,6 +60,17 @@ LEVEL_NOTE = "trusts SciPy's RK23/RK45 coefficients and rk_step, torch.linalg.ma
 TECHNIQUE = "Hypothesis property-based testing: reference-model oracle (textbook / SciPy steps), call-log reconstruction, convergence order, metamorphic relations"
 WALL = {"quick": 300, "thorough": 1800}
 
+FIRST_STEP_GUARD = True      # judge adaptive accuracy only when the first interval is short (see run_adaptive_acc and SITES)
+def _site_first_step(case):
+    """adaptive_acc cases whose first interval is outside the guarded regime (|h0| L > 0.5 for rk23, > 1 for rk45)"""
+    if "family" not in case or case.get("method") not in ("rk23", "rk45"):
+        return False
+    incr = case["grid"]["incr"]
+    LT = min(2.0, case["z0"] * sum(incr) / incr[0]) if case.get("z0") else case["LT"]
+    return LT * incr[0] / sum(incr) > (0.5 if case["method"] == "rk23" else 1.0)
+
+
+SITES = {"first_step_whole_interval": _site_first_step}
 DT = R.DT
 EPS = R.EPS
 SPAN = {"short": 1e-6, "unit": 1.0, "long": 30.0}
@@ -354,22 +366,28 @@ def run_adaptive_steps(case):
         return violation("y0_not_exact", "y[0] differs from y0 by %.3e" % float((Y[0] - v0).abs().max()), labels)
     if not bool(torch.isfinite(Y).all()):
         return discard("overflow", labels)
-    if (len(log) - 1) % s != 0 or len(log) < 1 + s:
-        return violation("fsal_count", "%d evaluations: not 1 + %d per attempted step (first-same-as-last reuse)" % (len(log), s), labels)
+    # evaluations: f(ts[0], y0), optionally one probe inside the first interval (initial step-size selection), then exactly
+    # s per attempted step (stages 2..s and the first-same-as-last evaluation at the end of the step)
+    if (len(log) - 1) % s == 0 and len(log) >= 1 + s:
+        off = 1
+    elif (len(log) - 2) % s == 0 and len(log) >= 2 + s and d * (log[1][0] - tvals[0]) >= 0 and d * (tvals[1] - log[1][0]) >= 0:
+        off = 2
+    else:
+        return violation("fsal_count", "%d evaluations: not 1 (+1 initial-step probe) + %d per attempted step (first-same-as-last reuse)" % (len(log), s), labels)
     if log[0][0] != tvals[0] or not bitwise_equal(log[0][1], v0):
         return violation("first_call", "first evaluation at t=%r y=%s, expected (ts[0], y0)" % (log[0][0], log[0][1].tolist()[:4]), labels)
 
     def f_np(t, y):
         return prob.f_flat(torch.tensor(t, dtype=DT), torch.from_numpy(np.ascontiguousarray(y))).numpy()
 
-    natt = (len(log) - 1) // s
+    natt = (len(log) - off) // s
     bt, by = tvals[0], v0.numpy().copy()
     bf = f_np(bt, by)
     accepted_states = []          # (t_end, y_end tensor)
     nrej = 0
     Eabs = np.abs(cls.E)
     for k in range(natt):
-        calls = log[1 + k * s: 1 + (k + 1) * s]
+        calls = log[off + k * s: off + (k + 1) * s]
         t_end, y_end = calls[-1]
         h = t_end - bt
         ah = abs(h)
@@ -395,7 +413,7 @@ def run_adaptive_steps(case):
         if last:
             acc = True
         else:
-            acc = d * (log[(k + 2) * s][0] - t_end) >= 0.0
+            acc = d * (log[off + (k + 2) * s - 1][0] - t_end) >= 0.0
         est = float(np.linalg.norm(err))
         scale = atol + rtol * max(float(np.linalg.norm(by)), float(np.linalg.norm(ynew)))
         band = 64 * EPS * ah * float((Eabs * Kn).sum()) * amp + 1e-9 * scale + (ulp_t / ah * est if ah > 0 else 0.0)
@@ -636,12 +654,19 @@ def run_adaptive_acc(case):
     s = R.STAGES[method]
     atol, rtol = tol_values(case)
     span = span_of(case["grid"])
-    # The first step is the whole first interval (h0 = ts[1]-ts[0], no step-size guess).  The embedded estimate is only
-    # asymptotically a bound of the error: for y'=lambda*y the Bogacki-Shampine estimate is |y| |z|^3 |1+z| / 48 (z = h*lambda),
-    # which vanishes at z = -1 although the error there is 0.035|y| (Dormand-Prince: zeros at |z| = 4.4).  The accuracy claim is
-    # therefore judged with |h0| L <= 0.5 (rk23) / 1 (rk45); later steps are chosen by the controller from below.
+    # The embedded estimate is only asymptotically a bound of the error: for y'=lambda*y the Bogacki-Shampine estimate is
+    # |y| |z|^3 |1+z| / 48 (z = h*lambda), which vanishes at z = -1 although the error there is 0.035|y| (Dormand-Prince: zeros at
+    # |z| = 4.4).  xitorch takes the whole first interval as its first step (h0 = ts[1]-ts[0], no step-size guess), so the first step
+    # is not controlled: y'=-y on ts=[0,1] with rk23 and the default tolerances returns y0/3 (error 3.5e-2).  Later steps are
+    # approached from below by the controller.  With FIRST_STEP_GUARD the accuracy claim is judged only for |h0| L <= 0.5 (rk23) /
+    # 1 (rk45); without it the generator additionally targets |h0 lambda| = 1 (site "first_step_whole_interval").
     incr = case["grid"]["incr"]
-    LT = min(case["LT"], (0.5 if method == "rk23" else 1.0) * sum(incr) / incr[0])
+    LT = case["LT"]
+    if case.get("z0"):
+        # targeted coincidence: |h0 * lambda| = z0 on the first interval for a scalar linear problem
+        LT = min(2.0, case["z0"] * sum(incr) / incr[0])
+    if FIRST_STEP_GUARD and not case.get("unguarded"):
+        LT = min(LT, (0.5 if method == "rk23" else 1.0) * sum(incr) / incr[0])
     fam, params, y0, tvals = family_setup(case, LT, span)
     ts = torch.tensor(tvals, dtype=DT)
     nt = len(tvals)
@@ -653,7 +678,8 @@ def run_adaptive_acc(case):
             raise R.EvalBudget("more than %d evaluations of the right-hand side" % R.MAX_CALLS)
         return R.family_rhs(fam, t, y, params)
     labels = ["method=" + method, "family=" + fam] + R.grid_labels(case["grid"]) + [
-        "atol=1e-%d" % case["atol_e"], "rtol=" + ("0" if case["rtol_e"] is None else "1e-%d" % case["rtol_e"]), "LT=%g" % case["LT"]]
+        "atol=1e-%d" % case["atol_e"], "rtol=" + ("0" if case["rtol_e"] is None else "1e-%d" % case["rtol_e"]), "LT=%g" % case["LT"],
+        "first_step=" + ("resonant" if case.get("z0") else "generic")]
     y = xt_call(solve_ivp, fcn, ts, y0.clone(), method=method, atol=atol, rtol=rtol, _where="forward")
     exact = R.family_exact(fam, ts, y0, params)
     if tuple(y.shape) != tuple(exact.shape):
@@ -662,7 +688,10 @@ def run_adaptive_acc(case):
         return violation("y0_not_exact", "y[0] differs from y0", labels)
     natt = max(1, (ncalls[0] - 1) // s)
     ymax = max(float(torch.linalg.vector_norm(exact[i])) for i in range(nt))
-    bound = 20.0 * natt * (atol + rtol * ymax) + 1e3 * EPS * natt * ymax
+    # rounding floor: arithmetic, and the rounding of the step end times t+h at |t| <= tmax (each accepted step ends at a time that is
+    # off by up to an ulp of tmax, i.e. the state is off by rate*ulp(tmax)*|y|; rate = LT/span bounds |y'|/|y|)
+    tmax = max(abs(tvals[0]), abs(tvals[-1]))
+    bound = 20.0 * natt * (atol + rtol * ymax) + (1e3 + 4 * tmax * LT / span) * EPS * natt * ymax
     for i in range(1, nt):
         err = float(torch.linalg.vector_norm(y[i] - exact[i]))
         if not err <= bound:
@@ -679,14 +708,25 @@ def adaptive_acc_st(draw, tier="quick"):
     c = {"method": method, "family": draw(st.sampled_from(R.FAMILIES)), "shape": draw(st.sampled_from([[1], [2], [3], [2, 2], [2, 3]])),
          "grid": draw(R.grid_st(offsets=(0.0, -3.0, 2.5))), "LT": draw(st.sampled_from([0.3, 1.0, 2.0])),
          "atol_e": draw(st.integers(4, lo)), "rtol_e": draw(st.one_of(st.none(), st.integers(4, lo))),
+         "z0": None if FIRST_STEP_GUARD else draw(st.sampled_from([None, None, None, 1.0])), "seed": draw(st.integers(0, 2 ** 31 - 1))}
+    return c
+
+
+@st.composite
+def first_step_st(draw, tier="quick"):
+    """known finding D31 (site first_step_whole_interval): scalar linear problem with |h0*lambda| = 1 on the first interval, rk23,
+    judged without the first-step guard; every *other* kind of violation in these cases still fails the run"""
+    c = {"method": "rk23", "family": "linear", "shape": [1], "grid": draw(R.grid_st(max_nt=3, offsets=(0.0,))), "LT": 1.0,
+         "atol_e": draw(st.integers(5, 8)), "rtol_e": draw(st.integers(4, 7)), "z0": 1.0, "unguarded": True,
          "seed": draw(st.integers(0, 2 ** 31 - 1))}
     return c
 
 
 def tasks(tier):
     return [
-        Task("fixed_scheme", strategy=fixed_scheme_st(), run=run_fixed_scheme, examples={"quick": 1600, "thorough": 30000}),
-        Task("fixed_order", strategy=fixed_order_st(), run=run_fixed_order, examples={"quick": 400, "thorough": 6000}),
-        Task("adaptive_steps", strategy=adaptive_steps_st(tier), run=run_adaptive_steps, examples={"quick": 700, "thorough": 9000}),
-        Task("adaptive_acc", strategy=adaptive_acc_st(tier), run=run_adaptive_acc, examples={"quick": 500, "thorough": 8000}),
+        Task("fixed_scheme", strategy=fixed_scheme_st(), run=run_fixed_scheme, examples={"quick": 3000, "thorough": 30000}),
+        Task("fixed_order", strategy=fixed_order_st(), run=run_fixed_order, examples={"quick": 800, "thorough": 6000}),
+        Task("adaptive_steps", strategy=adaptive_steps_st(tier), run=run_adaptive_steps, examples={"quick": 1400, "thorough": 9000}),
+        Task("adaptive_acc", strategy=adaptive_acc_st(tier), run=run_adaptive_acc, examples={"quick": 1000, "thorough": 8000}),
+        Task("first_step", strategy=first_step_st(tier), run=run_adaptive_acc, examples={"quick": 48, "thorough": 400}),
     ]
